@@ -287,6 +287,7 @@ def rule_logic(E, R):
     want_one = {"And": ("And", "all"), "Or": ("Or", "any"), "Xor": ("BitXor", "fold")}
     want_vec = {"And": ("And",), "Or": ("Or",), "Xor": ("BitXor",)}
     got_one, got_vec = {}, {}
+    xor_inits = []
     for node, st in sem.sem_walk(E, h):
         if node.get("k") != "Call":
             continue
@@ -303,6 +304,13 @@ def rule_logic(E, R):
             aops = [a["op"].replace("Assign", "") for a in exprs(clo["body"], "AssignOp")]
             red = [c["m"] for c in exprs(clo["body"], "MethodCall") if c["m"] in ("all", "any", "fold")]
             if cal.endswith("CompiledOneExpr::new"):
+                loops = [m_ for m_ in exprs(clo["body"], "Match") if m_.get("src") == "ForLoopDesugar" and
+                         norm(strip(m_["scrut"]).get("callee", "")).endswith("IntoIterator::into_iter")]
+                if not red and len(loops) == 1 and not [b_ for b_ in exprs(loops[0], ("Break", "Ret", "Continue")) if not b_.get("x")]:
+                    # an explicit accumulation loop over all the other operands is a fold
+                    red = ["fold"]
+                    ops = ops + aops
+                    xor_inits.append((let_accumulator_init(clo["body"], loops[0]), st))
                 got_one[lop[0]] = (tuple(ops), tuple(red))
             else:
                 got_vec[lop[0]] = tuple(ops + aops)
@@ -323,15 +331,33 @@ def rule_logic(E, R):
         g = got_vec.get(op)
         R.check(g == b, rule, fn, "element-wise %s uses %s" % (op.lower(), b[0]), "extracted %s" % (g,), h["span"])
     # xor fold starts from the first operand
-    for node, st in sem.sem_walk(E, h):
-        if node.get("k") == "MethodCall" and node["m"] == "fold" and arm_variants(st, "LogicalOp") == ["Xor"]:
-            init = strip(node["args"][0])
-            ok = init.get("k") == "MethodCall" and init["m"] == "execute"
-            if ok:
-                Sx = sem.Sem(E, h, inline=False)
-                b1, _, _, m1 = sem.provenance(Sx, init["recv"], Sx.root)
-                ok = b1 is not None and m1[:1] == ["next"] and all(x in ("unwrap", "expect") for x in m1[1:])
-            R.check(ok, rule, fn, "xor folds over all operands starting from the first", where=node["sp"])
+    inits = [(strip(node["args"][0]), st) for node, st in sem.sem_walk(E, h)
+             if node.get("k") == "MethodCall" and node["m"] == "fold" and arm_variants(st, "LogicalOp") == ["Xor"]]
+    inits += [(strip(i_), st) for i_, st in xor_inits if i_ is not None and arm_variants(st, "LogicalOp") == ["Xor"]]
+    for init, st in inits:
+        ok = init.get("k") == "MethodCall" and init["m"] == "execute"
+        if ok:
+            Sx = sem.Sem(E, h)
+            fr = st.frame if hasattr(st, "frame") else Sx.root
+            # the site objects come from another Sem instance: find the frame of the same function in this one
+            fr2 = Sx.root
+            for x_ in Sx.sites():
+                if x_.node is init:
+                    fr2 = x_.frame
+            b1, _, _, m1 = sem.provenance(Sx, init["recv"], fr2)
+            ok = b1 is not None and m1[:1] == ["next"] and all(x in ("unwrap", "expect") for x in m1[1:])
+        R.check(ok, rule, fn, "xor folds over all operands starting from the first", where=init.get("sp", ""))
+    R.check(len(inits) >= 1, rule, fn, "scalar xor accumulates from an initial value", where=h["span"])
+
+
+def let_accumulator_init(body, loop):
+    """initialiser of the mutable local that the loop updates with an operator assignment (`acc ^= ..`)"""
+    for a in exprs(loop, "AssignOp"):
+        nm = local_name(a["l"])
+        ini = let_init(body, nm) if nm else None
+        if ini is not None:
+            return ini
+    return None
 
 
 def _is_lookahead_op(n, h):
